@@ -1,7 +1,9 @@
 """C05 harness: replay paths of ECDH.tla's state graph on real ecdsa.ecdh.ECDH objects."""
 from . import core, toy
 
-CURVE_IDS = {1: "T263", 2: "Th4c"}      # a prime-order curve and a cofactor-4 curve (small-subgroup remote keys)
+# a prime-order curve, a cofactor-4 curve (small-subgroup remote keys), and the first curve's equation and order with
+# another base point (equal field, coefficients and order, yet a different curve for key agreement)
+CURVE_IDS = {1: "T263", 2: "Th4c", 3: "T263g"}
 
 
 class World(object):
